@@ -69,9 +69,9 @@ def load_cov(orb, data):
     return cov
 
 
-def dump_cov(cov):
+def dump_cov(cov, ref_frame):
     text = "\n"
-    if cov.frame != cov.orb.frame:
+    if cov.frame != ref_frame:
         frame = cov.frame
         if frame == "QSW":
             frame = "RSW"
